@@ -240,7 +240,7 @@ def scenario_coq(sc, oracle):
 
 
 # ---------------------------------------------------------------- results
-OP_KEYS = ["op", "panic", "err", "ret", "vals", "active", "calls", "exec", "unknown", "out", "attached", "items", "bytes", "model"]
+OP_KEYS = ["op", "panic", "err", "ret", "vals", "active", "calls", "exec", "unknown", "out", "attached", "set", "items", "bytes", "model"]
 
 
 def parse_model_output(b):
@@ -264,7 +264,7 @@ def parse_model_output(b):
 def normalise_go(r):
     out = {"setup": r.get("setup"), "ops": [], "fatal": r.get("fatal"), "nondet": r.get("nondet"), "other": r.get("other")}
     for o in r.get("ops") or []:
-        d = {k: o.get(k, "") for k in OP_KEYS if k in o or k in ("panic", "err", "ret", "vals", "active", "calls", "exec", "unknown", "out", "attached")}
+        d = {k: o.get(k, "") for k in OP_KEYS if k in o or k in ("panic", "err", "ret", "vals", "active", "calls", "exec", "unknown", "out", "attached", "set")}
         out["ops"].append(d)
     return out
 
